@@ -428,6 +428,34 @@ func (c *C08Case) addFault(r *gen.Rand, names []string) {
 		f.Raw, f.Docs = &m, nil
 		c.Faults = append(c.Faults, "storage:"+kind)
 	case 3: // $parent cycles and diamonds
+		if r.Chance(0.25) {
+			// a wide fan-out: one layer inheriting from a directory's worth of
+			// layers (wildcard), each of which names two parents of its own —
+			// more loads in flight than any pool or semaphore is sized for
+			n := gen.PickAny(r, []int{3, 12, 17, 40})
+			w.Dirs = append(w.Dirs, filepath.Join(c08Dir, "svc"))
+			for k := 0; k < n; k++ {
+				doc := map[string]any{"$parent": []any{"../fbase", "../fenv"}, "svc": k, "l": []any{k}}
+				if r.Chance(0.5) {
+					doc["pad"] = strings.Repeat("x", gen.PickAny(r, []int{10, 5000, 9000}))
+				}
+				w.Files = append(w.Files, procsim.File{Path: filepath.Join(c08Dir, "svc", fmt.Sprintf("s%02d.yaml", k)), Docs: treeDocs(doc)})
+			}
+			w.Files = append(w.Files, procsim.File{Path: filepath.Join(c08Dir, "fbase.yaml"), Docs: treeDocs(map[string]any{"base": 1, "l": []any{"b"}})})
+			envDoc := map[string]any{"env": "e", "l": []any{"e"}}
+			if r.Chance(0.2) {
+				envDoc["$parent"] = "fall" // ... and a cycle through the fan-out
+			}
+			w.Files = append(w.Files, procsim.File{Path: filepath.Join(c08Dir, "fenv.yaml"), Docs: treeDocs(envDoc)})
+			w.Files = append(w.Files, procsim.File{Path: filepath.Join(c08Dir, "fall.yaml"), Docs: treeDocs(map[string]any{"$parent": "svc/*", "all": true})})
+			if c.Tool == "bkl" || c.Tool == "bklr" || c.Tool == "bklb" || c.Tool == "kubectl-bkl" {
+				inv.Args = append(inv.Args[:len(inv.Args)-1], "fall.yaml")
+			} else {
+				inv.Args[len(inv.Args)-1] = "fall.yaml"
+			}
+			c.Faults = append(c.Faults, fmt.Sprintf("graph:wide-fan-out-%d", n))
+			return
+		}
 		f := pickFile()
 		if len(f.Docs) == 0 {
 			return
